@@ -341,6 +341,7 @@ struct Dumper {
         child("body", CS2->getHandlerBlock());
       } else if (auto *LE = dyn_cast<LambdaExpr>(S)) {
         genericChildren = false;
+        Lambdas.push_back(LE);
         if (const CXXMethodDecl *CO = LE->getCallOperator()) {
           J.attributeArray("params", [&] {
             for (const ParmVarDecl *P : CO->parameters()) {
@@ -379,7 +380,30 @@ struct Dumper {
     });
   }
 
+  std::vector<const LambdaExpr *> Lambdas;
+
   void cfg(const FunctionDecl *F) {
+    cfgOf(F, "cfg");
+    // the lambdas written inside this function: their bodies are part of the dumped AST; give each its own CFG
+    if (!Lambdas.empty()) {
+      std::vector<const LambdaExpr *> Ls;
+      Ls.swap(Lambdas);
+      J.attributeArray("lambda_cfgs", [&] {
+        for (const LambdaExpr *LE : Ls) {
+          const CXXMethodDecl *CO = LE->getCallOperator();
+          auto It = StmtId.find(LE);
+          if (!CO || !CO->getBody() || It == StmtId.end()) continue;
+          J.object([&] {
+            J.attribute("lambda", (int64_t)It->second);
+            cfgOf(CO, "cfg");
+          });
+        }
+      });
+      Lambdas.clear();
+    }
+  }
+
+  void cfgOf(const FunctionDecl *F, const char *Name) {
     CFG::BuildOptions BO;
     BO.setAllAlwaysAdd();
     BO.AddInitializers = true;
@@ -387,8 +411,8 @@ struct Dumper {
     BO.AddImplicitDtors = false;
     BO.AddTemporaryDtors = false;
     std::unique_ptr<CFG> G = CFG::buildCFG(F, F->getBody(), &Ctx, BO);
-    if (!G) { J.attribute("cfg", nullptr); return; }
-    J.attributeObject("cfg", [&] {
+    if (!G) { J.attribute(Name, nullptr); return; }
+    J.attributeObject(Name, [&] {
       J.attribute("entry", G->getEntry().getBlockID());
       J.attribute("exit", G->getExit().getBlockID());
       J.attributeArray("blocks", [&] {
